@@ -134,7 +134,7 @@ Definition format16 (can : N -> bool) (xml11 : bool) (m : emode) (u : unrep) (s 
 (** * the transcoders behind fXCoder (C05 models) and handleUnEscapedChars *)
 
 Inductive encoding : Type := EUtf8 | ELatin1 | EAscii | EWin1252 | EUtf16.
-Inductive ferr : Type := F_Unrepresentable | F_Hang | F_Other.
+Inductive ferr : Type := F_Unrepresentable | F_Hang | F_Other | F_BadSrcSeq.
 
 Definition enc_can (e : encoding) (c : N) : bool :=
   match e with
@@ -157,7 +157,23 @@ Definition ferr_of (e : xerr) : ferr :=
   match e with E_Trans_Unrepresentable => F_Unrepresentable | E_Fuel => F_Hang | _ => F_Other end.
 
 (** handleUnEscapedChars over the UTF-8 transcoder: chunks of kTmpBufSize units into a buffer of kTmpBufSize
-    bytes until everything is eaten.  A call that eats nothing repeats forever: the fuel runs out = F_Hang *)
+    bytes until everything is eaten.  As found, a call that eats nothing repeated forever (the fuel runs out =
+    F_Hang); repaired (fixes/C12-formatter-no-progress.patch) it raises TranscodingException Trans_BadSrcSeq *)
+Fixpoint hue8_old (fuel : nat) (k : nat) (src : list N) : res (list N) ferr :=
+  match src with
+  | [] => Ok []
+  | _ =>
+    match fuel with
+    | O => Err F_Hang
+    | S f =>
+      match x8_to (firstn k src) k true with
+      | Err e => Err (ferr_of e)
+      | Ok (bs, eaten) =>
+        match hue8_old f k (skipn eaten src) with Ok o => Ok (bs ++ o) | Err e => Err e end
+      end
+    end
+  end.
+
 Fixpoint hue8 (fuel : nat) (k : nat) (src : list N) : res (list N) ferr :=
   match src with
   | [] => Ok []
@@ -167,6 +183,7 @@ Fixpoint hue8 (fuel : nat) (k : nat) (src : list N) : res (list N) ferr :=
     | S f =>
       match x8_to (firstn k src) k true with
       | Err e => Err (ferr_of e)
+      | Ok (bs, O) => Err F_BadSrcSeq
       | Ok (bs, eaten) =>
         match hue8 f k (skipn eaten src) with Ok o => Ok (bs ++ o) | Err e => Err e end
       end
@@ -302,6 +319,18 @@ Fixpoint valid_string (refs xml11 : bool) (s : list N) : bool :=
     else false
   end.
 
+(** the two units [a b] occur in [s]; [s] ends with [c] *)
+Fixpoint occurs2 (a b : N) (s : list N) : bool :=
+  match s with
+  | [] => false
+  | c :: r => match r with
+              | d :: _ => ((c =? a) && (d =? b)) || occurs2 a b r
+              | [] => false
+              end
+  end.
+Fixpoint ends_with (c : N) (s : list N) : bool :=
+  match s with [] => false | [d] => d =? c | _ :: r => ends_with c r end.
+
 Inductive node : Type :=
 | Elem (name : list N) (attrs : list (list N * list N)) (kids : list node)
 | Text (s : list N)
@@ -355,9 +384,13 @@ Fixpoint ser_node (cf : scfg) (n : node) : res (list N) serr :=
       markup cf (ser_gStartCDATA ++ s ++ ser_gEndCDATA)
   | Comment s =>
     if negb (valid_string false (c_xml11 cf) s) then Err S_InvalidChar else
+    (* repaired (fixes/C12-comment-pi-wf.patch): "--" in a comment, a comment ending in "-", "?>" in PI data are
+       fatal errors; as found they were written *)
+    if c_fixed cf && (occurs2 45 45 s || ends_with 45 s) then Err S_InvalidChar else
     markup cf (ser_gStartComment ++ s ++ ser_gEndComment)
   | PI t d =>
     if negb (valid_string false (c_xml11 cf) t && valid_string false (c_xml11 cf) d) then Err S_InvalidChar else
+    if c_fixed cf && occurs2 63 62 d then Err S_InvalidChar else
     markup cf (ser_gStartPI ++ t ++ (match d with [] => [] | _ => 32 :: d end) ++ ser_gEndPI)
   | Elem name attrs kids =>
     bind (markup cf (60 :: name)) (fun st =>
